@@ -247,7 +247,9 @@ def baseSinkKind (kind : String) : String :=
   -- the harness's own sinks (last stage of the C01 pipes): a collecting and a summing one
   if kind == "own_collect" then "sink_collect" else
   if kind == "own_sum" then "sink_unit_sum" else
-  if kind.endsWith "_f64" then String.ofList (kind.toList.take (kind.length - 4)) else kind
+  if kind.endsWith "_f64" then String.ofList (kind.toList.take (kind.length - 4)) else
+  -- … and at the smallest machine integers
+  if kind.endsWith "_u8" || kind.endsWith "_i8" then String.ofList (kind.toList.take (kind.length - 3)) else kind
 
 def mkSink (kind : String) : Option (Sk V) :=
   match baseSinkKind kind with
